@@ -173,8 +173,14 @@ def stage2(shapes, s1_meta, s1_model, seed, tier='quick'):
                                  bytes([0xff] * (a + 2)), img[:min(size, 2 * a + 1)], garbage(rng, 3 * a + 5)]):
             add('M', '%s.X%d' % (cid, j), sid, 0, img + ext, kind='extension', base=cid, size=size, ext=len(ext))
         # ---- misaligned placements
-        for off in range(1, min(2 * a, 17)):
+        from shapes import is_portable
+        noff = 8 if (a == 1 and is_portable(t)) else min(2 * a, 17)
+        for off in range(1, noff):
             add('V', '%s.O%d' % (cid, off), sid, off, img, kind='offset', base=cid)
+        if a == 1 and is_portable(t):
+            for off in (2, 3, 5, 7):
+                add('E', '%s.E%do%d' % (cid, size, off), sid, off, garbage(rng, size), ini, kind='emplace', base=cid,
+                    extent=size)
         # ---- single byte mutations (with slack behind, so that a grown length field can be honoured or refused)
         slack = garbage(rng, rng.choice([0, a, 2 * a + 1]))
         positions = list(range(size))
